@@ -66,6 +66,9 @@ func propC09(p *Prog, r *Report) {
 	}
 }
 
+// c09EqualityIsCare: set by C18 around its own run of the retention-guard table.
+var c09EqualityIsCare bool
+
 func c09Guard(p *Prog, r *Report) {
 	fi := p.Func(kIterBefore)
 	if fi == nil {
@@ -106,6 +109,12 @@ func c09Guard(p *Prog, r *Report) {
 		{[]int64{2}, nil},
 		{[]int64{2, 7}, nil},
 		{[]int64{1, 2, 3, 4, 9}, []int64{1, 2, 3}},
+	}
+	if c09EqualityIsCare {
+		// C18 states the collection at its own observation point: a successor that carries exactly the horizon is
+		// "not newer than the horizon", its predecessor goes (for C09 the row is don't-care: through the public API a
+		// horizon is never a version stamp)
+		scenarios = append(scenarios, scenario{[]int64{2, 5, 9}, []int64{2}}, scenario{[]int64{4, 5}, []int64{4}})
 	}
 	type row struct {
 		Chain   []int64
